@@ -77,7 +77,7 @@ fn static_check() -> Result<(), Fail> {
 
 pub fn run(ctx: &RunCtx) -> Outcome {
     let mut o = Outcome::default();
-    o.rule = format!("corpus of {} delegated and VM-compiled patterns (with delegates, counters, atomic groups, look-arounds, back-references, \\G, \\K, conditionals) x {} texts; rounds of 2..16 threads started behind a barrier, each running a proptest-generated sequence of calls (captures, find_iter, try_replacen with group expansion) through one shared &Regex per pattern, through clones made beforehand and through clones made concurrently inside the threads; every result must equal the single-threaded result computed beforehand, no call may panic, all threads must finish (watchdog => inconclusive). Static part: a separate crate asserting Regex: Send + Sync + Clone must build. Non-trivial = a call on a shared instance of a VM pattern with >= 1 delegate that started while another thread was inside a call on the same instance (measured with an atomic in-flight counter). Distinct = distinct (round, thread, step).", PATTERNS.len(), TEXTS.len());
+    o.rule = format!("corpus of {} delegated and VM-compiled patterns (with delegates, counters, atomic groups, look-arounds, back-references, \\G, \\K, conditionals) x {} texts; rounds of 2..16 threads started behind a barrier, each running a proptest-generated sequence of calls (captures, find_iter, try_replacen with group expansion) through one shared &Regex per pattern, through clones made beforehand and through clones made concurrently inside the threads; after each round a hot-spot phase in which all threads hammer one VM pattern on the text that needs the most backtracks, through one shared instance (and clones of it) whose backtrack limit is only a third above that need; every result must equal the single-threaded result computed beforehand, no call may panic, all threads must finish (watchdog => inconclusive). Static part: a separate crate asserting Regex: Send + Sync + Clone must build. Non-trivial = a call on a shared instance of a VM pattern with >= 1 delegate that started while another thread was inside a call on the same instance (measured with an atomic in-flight counter). Distinct = distinct (round, thread, step).", PATTERNS.len(), TEXTS.len());
     o.assumptions = vec![
         "the thread schedule is the operating system's: this is the one property where generated-input search is weak; the check can only report a violation it happens to provoke".into(),
         "regex-automata's internal pool cannot be put under a controlled scheduler with the installed tooling".into(),
@@ -113,10 +113,37 @@ pub fn run(ctx: &RunCtx) -> Outcome {
         }
     }
     let expected: Vec<Vec<[Res; 3]>> = regs.iter().map(|r| TEXTS.iter().map(|t| [call(&r.0, t, 0), call(&r.0, t, 1), call(&r.0, t, 2)]).collect()).collect();
+    // hot spots: per VM pattern the text needing the most backtracks, and a regex whose backtrack
+    // limit is only a third above that need (so that searches disturbing each other's accounting show)
+    let mut hot: Vec<(usize, usize, Arc<Shared>, [Res; 3])> = vec![];
+    for (pi, p) in PATTERNS.iter().enumerate() {
+        if !engine::is_vm(&regs[pi].0) {
+            continue;
+        }
+        let mut best = (0u64, 0usize);
+        for (ti, t) in TEXTS.iter().enumerate() {
+            fancy_regex::verif_hooks::reset_run_stats();
+            let _ = regs[pi].0.find(t);
+            let b = fancy_regex::verif_hooks::last_run_stats().backtracks;
+            if b > best.0 {
+                best = (b, ti);
+            }
+        }
+        if best.0 < 8 {
+            continue;
+        }
+        // find_iter / replace run several searches; the limit applies to each one separately
+        let limit = (best.0 + best.0 / 3 + 1) as usize;
+        if let Ok(r) = fancy_regex::RegexBuilder::new(p).backtrack_limit(limit).build() {
+            let t = TEXTS[best.1];
+            let exp = [call(&r, t, 0), call(&r, t, 1), call(&r, t, 2)];
+            hot.push((pi, best.1, Arc::new(Shared(r)), exp));
+        }
+    }
     let in_flight: Vec<AtomicUsize> = (0..PATTERNS.len()).map(|_| AtomicUsize::new(0)).collect();
     let overlaps = AtomicU64::new(0);
     let overlaps_vm = AtomicU64::new(0);
-    let rounds = if ctx.quick() { 240 } else { 4000 };
+    let rounds = if ctx.quick() { 120 } else { 4000 };
     let steps = if ctx.quick() { 400 } else { 800 };
     let mut first_fail: Option<(Value, Fail)> = None;
     let mut evals = 0u64;
@@ -185,6 +212,44 @@ pub fn run(ctx: &RunCtx) -> Outcome {
         });
         evals += (nthreads * steps) as u64;
         nontrivial += overlaps_vm.load(Ordering::Relaxed) - before;
+        // hot-spot round: all threads hammer one (pattern, heaviest text) pair on one shared instance
+        if !hot.is_empty() && fails.iter().all(|f| f.is_none()) {
+            let (pi, ti, re, exp) = &hot[round % hot.len()];
+            let barrier = Barrier::new(nthreads);
+            let reps = 60usize;
+            let hf: Vec<Option<(Value, Fail)>> = std::thread::scope(|s| {
+                let hs: Vec<_> = (0..nthreads)
+                    .map(|k| {
+                        let (re, exp, barrier, overlaps_vm) = (re, exp, &barrier, &overlaps_vm);
+                        s.spawn(move || {
+                            let mine = if k % 3 == 2 { Some(re.0.clone()) } else { None };
+                            barrier.wait();
+                            for i in 0..reps {
+                                let kind = (i + k) % 3;
+                                let got = call(mine.as_ref().unwrap_or(&re.0), TEXTS[*ti], kind);
+                                overlaps_vm.fetch_add(1, Ordering::Relaxed);
+                                if got != exp[kind] {
+                                    let call_name = ["captures", "find_iter", "try_replacen"][kind];
+                                    return Some((
+                                        json!({"pattern": PATTERNS[*pi], "text": TEXTS[*ti], "call": call_name, "mode": "hot-spot (shared instance with a tight backtrack limit)", "threads": nthreads, "round": round}),
+                                        Fail::new(if matches!(got, Res::Panic(_)) { "panic" } else { "result-differs" }, format!("{:?}", exp[kind]), format!("{:?}", got)),
+                                    ));
+                                }
+                            }
+                            None
+                        })
+                    })
+                    .collect();
+                hs.into_iter().map(|h| h.join().unwrap_or(None)).collect()
+            });
+            evals += (nthreads * reps) as u64;
+            nontrivial += (nthreads * reps) as u64;
+            o.stats.class_n("mode:hot-spot", (nthreads * reps) as u64);
+            if let Some(f) = hf.into_iter().flatten().next() {
+                first_fail = Some(f);
+                break;
+            }
+        }
         if let Some(f) = fails.into_iter().flatten().next() {
             first_fail = Some(f);
             break;
